@@ -16,6 +16,7 @@ import (
 var fpSeed = maphash.MakeSeed()
 
 type fpWalker struct {
+	lax     bool // nil and empty maps/slices hash alike (used to recognise "holds no data yet")
 	h       maphash.Hash
 	visited map[visitKey]bool
 	bytes   int64
@@ -82,7 +83,9 @@ func (w *fpWalker) walk(v reflect.Value) {
 	case reflect.Slice:
 		w.u64(uint64(v.Len()))
 		if v.IsNil() {
-			w.u64(0xdead)
+			if !w.lax {
+				w.u64(0xdead)
+			}
 			return
 		}
 		if v.Len() == 0 {
@@ -127,7 +130,9 @@ func (w *fpWalker) walk(v reflect.Value) {
 	case reflect.Map:
 		w.u64(uint64(v.Len()))
 		if v.IsNil() {
-			w.u64(0xdead)
+			if !w.lax {
+				w.u64(0xdead)
+			}
 			return
 		}
 		type kv struct {
@@ -155,6 +160,21 @@ func (w *fpWalker) walk(v reflect.Value) {
 	default:
 		w.skipped["kind:"+t.Kind().String()]++
 	}
+}
+
+// LaxFingerprint is Fingerprint with nil and empty maps/slices hashing alike.
+func LaxFingerprint(x interface{}) uint64 {
+	w := newWalker()
+	w.lax = true
+	v := reflect.ValueOf(x)
+	if v.Kind() == reflect.Ptr && !v.IsNil() {
+		w.walk(v.Elem())
+	} else {
+		tmp := reflect.New(v.Type()).Elem()
+		tmp.Set(v)
+		w.walk(tmp)
+	}
+	return w.h.Sum64()
 }
 
 // Fingerprint hashes everything reachable from the value x points to.
